@@ -111,11 +111,14 @@ def cell_cdf(p0, p1, t):
 
 # ----------------------------------------------------------------------------- posteriors
 class Family:
-    """log-posterior with a scale parameter s (all lengths multiplied by s)."""
+    """log-posterior with a scale parameter s (all lengths multiplied by s) and a location parameter loc (every
+    coordinate shifted by loc * s: the centre of the distribution is then |loc| widths away from the origin)."""
 
-    def __init__(self, name, s):
+    def __init__(self, name, s, loc=0.0):
         self.name = name
         self.s = float(s)
+        self.loc = float(loc)
+        self.off = float(loc) * float(s)
 
     def mode(self):
         raise NotImplementedError
@@ -131,11 +134,11 @@ class Separable(Family):
     SG = np.array([0.1, 3.0, 1.0])
 
     def __call__(self, t):
-        z = (np.asarray(t, dtype=float) - self.MU * self.s) / (self.SG * self.s)
+        z = (np.asarray(t, dtype=float) - self.mode()) / (self.SG * self.s)
         return -0.5 * float(z @ z)
 
     def mode(self):
-        return self.MU * self.s
+        return self.MU * self.s + self.off
 
     def sig(self):
         return self.SG * self.s
@@ -150,12 +153,12 @@ class Correlated(Family):
     SG = np.array([1.0, 0.5])
 
     def __call__(self, t):
-        z = (np.asarray(t, dtype=float) - self.MU * self.s) / (self.SG * self.s)
+        z = (np.asarray(t, dtype=float) - self.mode()) / (self.SG * self.s)
         r = self.RHO
         return -0.5 * float(z[0] ** 2 - 2 * r * z[0] * z[1] + z[1] ** 2) / (1 - r * r)
 
     def mode(self):
-        return self.MU * self.s
+        return self.MU * self.s + self.off
 
     def sig(self):
         return self.SG * self.s * math.sqrt(1 - self.RHO**2)
@@ -170,29 +173,29 @@ class Skewed(Family):
 
     def __call__(self, t):
         t = np.asarray(t, dtype=float)
-        u = t[0] / self.s
-        v = t[1] / self.s
+        u = (t[0] - self.off) / self.s
+        v = (t[1] - self.off) / self.s
         if u <= 0:
             return -math.inf
         return 2.0 * math.log(u) - u - 0.5 * (v - 0.5 * u) ** 2
 
     def mode(self):
         # v = u/2 at the mode, then 2/u - 1 = 0
-        return np.array([2.0, 1.0]) * self.s
+        return np.array([2.0, 1.0]) * self.s + self.off
 
     def sig(self):
         return np.array([1.2, 1.0]) * self.s
 
     @property
     def lower(self):
-        return np.array([1e-6 * self.s, -math.inf])
+        return np.array([1e-6 * self.s + self.off, -math.inf])
 
 
 FAMILIES = {"separable": Separable, "correlated": Correlated, "skewed": Skewed}
 
 
-def make_family(name, s):
-    return FAMILIES[name](name, s)
+def make_family(name, s, loc=0.0):
+    return FAMILIES[name](name, s, loc)
 
 
 def line(post, c, i):
